@@ -37,7 +37,8 @@ evars == <<vars, em>>
 Bound == 240
 \* fixed ids
 Void == 1  Bool == 2  U32 == 3  FnTy == 4  True == 5  One == 6  V3 == 7  PtrIn == 8  Gid == 9
-FnId(i) == 9 + i             \* function i (1 = the entry point "main")
+FnTy1 == Bound - 3           \* void(u32): the type of every helper function
+FnId(i) == 9 + i             \* function i (1 = the entry point "main"; i > 1: helpers with one u32 parameter)
 K == IF MaxFns > 2 THEN MaxFns ELSE 2      \* id layout: room for at least two functions
 FirstFree == 10 + K
 
@@ -55,7 +56,9 @@ Preamble(F) ==
   IN <<hdr>> \o (IF "wrong_section" = F THEN mm \o cap ELSE cap \o mm) \o <<ep, xm>> \o dec \o
      << Ins("OpTypeVoid", 0, Void, <<>>, <<>>, <<>>, ""), Ins("OpTypeBool", 0, Bool, <<>>, <<>>, <<>>, ""), u32 >>
      \o (IF "dup_type" = F THEN <<[u32 EXCEPT !.r = Bound - 1]>> ELSE <<>>) \o
-     << Ins("OpTypeFunction", 0, FnTy, <<Void>>, <<>>, <<>>, ""), Ins("OpConstantTrue", Bool, True, <<>>, <<>>, <<>>, ""),
+     << Ins("OpTypeFunction", 0, FnTy, <<Void>>, <<>>, <<>>, ""), Ins("OpTypeFunction", 0, FnTy1, <<Void, U32>>, <<>>, <<>>, "") >>
+     \o (IF "dup_fn_type" = F THEN <<Ins("OpTypeFunction", 0, Bound - 4, <<Void, U32>>, <<>>, <<>>, "")>> ELSE <<>>) \o
+     << Ins("OpConstantTrue", Bool, True, <<>>, <<>>, <<>>, ""),
         Ins("OpConstant", U32, One, <<>>, <<1>>, <<>>, ""), Ins("OpTypeVector", 0, V3, <<U32>>, <<3>>, <<>>, ""),
         Ins("OpTypePointer", 0, PtrIn, <<V3>>, <<>>, <<"Input">>, ""), Ins("OpVariable", PtrIn, Gid, <<>>, <<>>, <<"Input">>, "") >>
 
@@ -63,12 +66,13 @@ Preamble(F) ==
 \* pend = blocks of f announced but not yet written; nb = blocks announced so far in f; nid = next fresh id;
 \* inj = a fault was actually injected; done = "end" was written; shapes = constructs used (for the harness)
 \* budgets: the full ones without a fault, just enough for the fault otherwise
-FnBudget(F) == IF F = "none" THEN MaxFns ELSE IF F = "recursion" THEN 2 ELSE 1
-BlockBudget(F) == IF F = "none" THEN MaxBlocks ELSE IF F = "backedge_nonheader" THEN 5 ELSE 3
+FnFaults == {"param_type_mismatch", "missing_param", "extra_param", "call_arg_mismatch", "call_arg_count", "fn_ret_mismatch"}
+FnBudget(F) == IF F = "none" THEN MaxFns ELSE IF F \in FnFaults \cup {"recursion"} THEN 2 ELSE 1
+BlockBudget(F) == IF F = "none" THEN MaxBlocks ELSE IF F = "backedge_nonheader" THEN 5 ELSE IF F \in FnFaults THEN 1 ELSE 3
 EInit == /\ Init
          /\ \E F \in Faults \cup {"none"} :
               em = [fault |-> F, q |-> Preamble(F), todo |-> 1..FnBudget(F), f |-> 0, pend |-> {}, nb |-> 0, nid |-> FirstFree, n |-> 1,
-                    inj |-> F \in {"bad_bound", "missing_capability", "missing_interface", "undecorated_input", "wrong_section", "dup_type"},
+                    inj |-> F \in {"bad_bound", "missing_capability", "missing_interface", "undecorated_input", "wrong_section", "dup_type", "dup_fn_type"} \cup FnFaults,
                     done |-> FALSE, shapes |-> {}]
 
 \* write the next queued event
@@ -78,21 +82,30 @@ Write == /\ em.q # <<>>
 
 \* start a function: main calls every helper and reads the Input variable; helper i calls nobody
 \* (fault "recursion": a helper calls itself)
+\* helpers (i > 1) have the type void(u32) and one OpFunctionParameter; faults: the parameter declared with another type,
+\* left out, or declared twice; the OpFunction's result type differing from the function type's return type
 StartFn == /\ em.q = <<>> /\ em.f = 0 /\ em.todo # {}
            /\ \E i \in em.todo :
-                LET entry == em.nid IN
-                em' = [em EXCEPT !.q = <<Ins("OpFunction", Void, FnId(i), <<FnTy>>, <<0>>, <<>>, "")>>, !.f = i, !.todo = em.todo \ {i},
+                LET helper == i # 1
+                    np == IF ~helper \/ em.fault = "missing_param" THEN 0 ELSE IF em.fault = "extra_param" THEN 2 ELSE 1
+                    ps == [j \in 1..np |-> Ins("OpFunctionParameter", IF em.fault = "param_type_mismatch" THEN Bool ELSE U32, em.nid + j - 1, <<>>, <<>>, <<>>, "")]
+                    entry == em.nid + np
+                    rt == IF em.fault = "fn_ret_mismatch" /\ helper THEN Bool ELSE Void IN
+                em' = [em EXCEPT !.q = <<Ins("OpFunction", rt, FnId(i), <<IF helper THEN FnTy1 ELSE FnTy>>, <<0>>, <<>>, "")>> \o ps,
+                                 !.f = i, !.todo = em.todo \ {i},
                                  !.pend = {[id |-> entry, kind |-> "plain", after |-> 0, avail |-> {One}, a |-> 0, b |-> 0, c |-> 0, entry |-> TRUE]},
-                                 !.nb = 1, !.nid = em.nid + 1]
+                                 !.nb = 1, !.nid = entry + 1]
            /\ UNCHANGED vars
 
 \* the straight-line part of a block: label, (entry block) calls / load, optionally one OpIAdd
 BlockHead(blk, useVal, operand, vid) ==
   <<Ins("OpLabel", 0, blk.id, <<>>, <<>>, <<>>, "")>> \o
   (IF blk.entry /\ em.f = 1
-   THEN [j \in 1..(FnBudget(em.fault) - 1) |-> Ins("OpFunctionCall", Void, vid + j, <<FnId(j + 1)>>, <<>>, <<>>, "")]
+   THEN [j \in 1..(FnBudget(em.fault) - 1) |->
+           Ins("OpFunctionCall", Void, vid + j,
+               <<FnId(j + 1)>> \o (IF em.fault = "call_arg_count" THEN <<>> ELSE <<IF em.fault = "call_arg_mismatch" THEN True ELSE One>>), <<>>, <<>>, "")]
         \o <<Ins("OpLoad", V3, vid + K, <<Gid>>, <<>>, <<>>, "")>>
-   ELSE IF blk.entry /\ em.fault = "recursion" THEN <<Ins("OpFunctionCall", Void, vid + 1, <<FnId(em.f)>>, <<>>, <<>>, "")>>
+   ELSE IF blk.entry /\ em.fault = "recursion" THEN <<Ins("OpFunctionCall", Void, vid + 1, <<FnId(em.f), One>>, <<>>, <<>>, "")>>
    ELSE <<>>) \o
   (IF useVal THEN <<Ins("OpIAdd", U32, IF em.fault = "dup_id" THEN One ELSE vid, <<operand, IF em.fault = "wrong_operand_type" THEN True ELSE operand>>, <<>>, <<>>, "")>> ELSE <<>>)
 
